@@ -218,6 +218,10 @@ def deep_origins(ctx, operand, depth=5, stop=None):
         elif o.kind == "discr" and o.extra is not None:
             for x in ctx.origins.of_place(o.extra.rv.place):
                 work.append((x, d + 1))
+        elif o.kind == "agg" and o.extra is not None and hasattr(o.extra, "rv"):
+            for a in o.extra.rv.ops:
+                for x in ctx.origins.of_operand(a):
+                    work.append((x, d + 1))
     return out
 
 
@@ -319,3 +323,25 @@ def async_write_flush_rule(chk, ctx, rule, sinks, what):
                 "write (disk full, I/O error) is swallowed and a truncated file is published as if complete" % what,
                 ctx.site(writes[0][0]), path=ctx.describe_path(p))
     return len(writes)
+
+
+def chain_fields(ctx, operand, depth=6):
+    """named fields mentioned along the single-definition ref/use chain of an operand
+    (`&role.signatures` -> {'signatures'})"""
+    out = set()
+    op_place = operand.place
+    for _ in range(depth):
+        if op_place is None:
+            break
+        out |= set(op_place.fields())
+        ds = ctx.origins.defs.get(op_place.local, [])
+        if len(ds) != 1 or ds[0][0] != "stmt":
+            break
+        rv = ds[0][3].rv
+        if rv.k in ("ref", "copyderef"):
+            op_place = rv.place
+        elif rv.k in ("use", "cast") and rv.ops and rv.ops[0].place is not None:
+            op_place = rv.ops[0].place
+        else:
+            break
+    return out
